@@ -10,8 +10,8 @@ KINDS = {
     'C04': {'wf'},
     'C05': {'alloc', 'wf'},
     'C08': {'reply'},
-    'C09': {'abs', 'alloc', 'wf', 'reply'},
-    'C10': {'abs', 'alloc', 'reply'},
+    'C09': {'abs', 'alloc', 'wf', 'reply', 'cache'},
+    'C10': {'abs', 'alloc', 'reply', 'cache'},
     'C11': {'panic'},
     'C12': {'wf', 'reply', 'abs'},
     'C13': {'reply'},
@@ -77,6 +77,11 @@ def run_profile(ctx, prop, profile, nseq, nops, size, kinds=None, seed_off=0, sh
             if s_['panic'] or not s_['reply'] or s_['nabs'] or s_['nwf'] or not s_['alloc']:
                 k_, p_, d_ = signature(s_)
                 kf = vlib.match_finding(Failure(prop, k_, p_, d_), findings)
+                benign = not s_['panic'] and s_['reply'] and s_['nabs'] == 0 and s_['nwf'] == 0
+                if kf is None and benign and k_ not in kinds:
+                    # a relation another property owns failed, but reference and implementation still agree: go on
+                    stats.setdefault('foreign_benign', []).append('%s/%s/%s' % (k_, p_, d_[:60]))
+                    continue
                 if kf is not None and not s_['panic'] and s_['nabs'] == 0 and s_['nwf'] == 0 and s_['alloc']:
                     f0 = Failure(prop, k_, p_, d_, replay=dict(header=hdr, ops=ops, failing_step=s_['id'], profile=profile))
                     f0.foreign = False
@@ -93,13 +98,15 @@ def run_profile(ctx, prop, profile, nseq, nops, size, kinds=None, seed_off=0, sh
         stats['cut_short'] += 1
         # minimise
         small = ops
-        if shrink and kind != 'panic' and len(ops) > 1:
+        nshrunk = stats.setdefault('nshrunk', 0)
+        if shrink and kind != 'panic' and len(ops) > 1 and nshrunk < 3:
+            stats['nshrunk'] = nshrunk + 1
             upto = [o for o in ops if int(o.split()[0]) <= int(st['id'])] if st['id'].isdigit() else ops
 
             def pred(ss):
                 j = vlib.first_failure(ss)
                 return j is not None and signature(ss[j])[:2] == (kind, proc)
-            small = vlib.shrink(hdr, upto, pred, budget=30)
+            small = vlib.shrink(hdr, upto, pred, budget=20)
             ss, _, _ = vlib.judge_ops(hdr, small, 'final')
             j = vlib.first_failure(ss)
             if j is not None:
